@@ -74,6 +74,14 @@ CHECKS.update({
          'overdue, the FSM handles in the loop heap = the one predicted timer, get_state() expiry = that timer, nothing pending or firing after stop.',
          TRUSTED + '; durations are multiples of 0.25 s; same-instant order of stimulus and expiry is left to asyncio', '6 C04'),
 })
+CHECKS.update({
+ 'C18': (MC, 'TLC model checking of Repeat.tla (two Repeat blocks in series on a tick grid) + TLC-exported arrival patterns and random ones replayed on real Repeat chains (explicit and Event(..., repeat=)), one validated trace per block',
+         'Repeat.tla defines Recv/Tick (forward at once with repeat=0, source/orig_source, numbering restart, count bound, output = last repeat number); MC_Repeat checks '
+         'CountBound, OutputIsLastRepeat, Pace, RestartOnNew, ProbeSeesLatest, SilentAfterStop for a chain of two blocks, all counts, arrivals before/at/after repetitions; '
+         'behaviours exported from TLC simulation and random patterns drive chains of 1..3 real Repeat blocks on the virtual-time loop; every reception at every block and at the '
+         'probe is recorded; per block: each repetition exactly one interval after the last event sent, never overdue, data of the most recent event, next number, nothing after stop.',
+         TRUSTED + '; intervals are multiples of 0.25 s; a repetition and an arrival at the same virtual instant may come in either order (but the old event must not follow the new one)', '6 C18'),
+})
 NA = {}
 ALL = [f'C{n:02d}' for n in range(1, 21)]
 
